@@ -5,7 +5,9 @@ dropped, and for-loop findings get their own construct key (so that an exemption
 over the same set).  D1b adds the sinks / sources D1 does not model: `yield from` of a set, sets held by ANOTHER object
 (attribute names that only ever hold sets anywhere in the compiler), and sets handed to a function that iterates its
 parameter into an order-sensitive effect.  D3g generalises the memo-key rule to every memo container (module level,
-default-argument, class or instance attribute).  D4: values of the clock / process id / random sources never reach emitted
+default-argument, class or instance attribute).  D3p (sixth round, seed C42h) refines it attribute by attribute: a parameter that enters a memo key only
+through projections (p.attr, p.method(), len/type/truth of p, the keys of a **mapping) must be read by the memoised value only through those
+projections; p.method() is resolved nominally to the union of the self-attributes every compiler method of that name reads.  D4: values of the clock / process id / random sources never reach emitted
 text.  D5: no class-level mutable container is mutated through instances.  D6: a compilation Context is never reused for a
 second source."""
 import ast, re
